@@ -44,7 +44,7 @@ def run(ctx):
     ctx.rule = ("every string over {a, あ, space, /, \\, -, |, NUL} up to the length bound through 3 constructors "
                 "and 3 updates (updates applied to a tagged sentence); non-trivial = string accepted by the "
                 "tokenized or partial reader")
-    string_cases(ctx, binp, 4 if ctx.quick else 5)
+    string_cases(ctx, binp, 5 if ctx.quick else 6)
     # histories: every call sequence up to the depth over the operation pool; C05 judges the state after every
     # update / constructor / reset_tags call (the prediction-related steps are judged by C08)
     L.mutant(ctx)
